@@ -557,7 +557,18 @@ def run(ctx):
     rets = [n for n in gid.nodes() if n.get("k") == "return"]
     res.check(len(rets) == 1 and strip_all_casts(rets[0]["e"]).get("field") == NS + "InterfaceStatus::interfaceId", "C16-R1", "InterfaceStatus::getInterfaceId", gid.loc,
               "returns the stored id", "getInterfaceId does not return the stored id")
-    res.floor("C16-R1", 4)
+    # the key extractors themselves: the tracker files a message under whatever these two getters report, so each must report the
+    # message's own id for every message the tracker accepts (engine and layout oracle of C12; a getter that answers differently
+    # for some valid payloads files those messages under another key)
+    from cmpverif import accessors
+    obs, _ = accessors.analyse(fb, ctx.spec("layout.json"))
+    kx = [o for o in obs if o.key in (NS + "InterfacePayload::getInterfaceId", NS + "Packet::getDeviceId", NS + "Packet::DeviceId",
+                                      NS + "InterfacePayload::Header::getInterfaceId")]
+    for o in kx:
+        res.check(o.ok, "C16-R1", "key-extractor:" + o.key, o.loc, o.detail)
+    if len(kx) < 3:
+        raise Broken("C16-R1: key extractor obligations not found (%d)" % len(kx))
+    res.floor("C16-R1", 7)
     res.floor("C16-R2", 5)
     res.floor("C16-R3", 3)
     res.floor("C16-R4", 5)
